@@ -22,6 +22,7 @@ structure Inv (σ : Sys) : Prop where
   taskId : ∀ t T, σ.tasks t = some T → T.id = t
   body : ∀ t b B, σ.bodies t b = some B →
     b ≠ 0 ∧ B.state ≠ .created ∧ ∃ T, σ.tasks t = some T ∧ B.flags = bodyFlagsOf T.flags
+  bodyId : ∀ t b B, σ.bodies t b = some B → B.id = b
   nbodies : ∀ t T, σ.tasks t = some T → (T.nbodies = 0 ↔ ∀ b, σ.bodies t b = none)
   onStack : ∀ t b s, (t, b) ∈ σ.stacks s ↔ ∃ B, σ.bodies t b = some B ∧ B.stack = some s
   stackState : ∀ t b B, σ.bodies t b = some B →
@@ -65,7 +66,7 @@ theorem abs_upd {σ σ' : Sys} {t b s : Nat} {T T' : Task} {Bn : Body} {l : List
 theorem inv_upd {σ σ' : Sys} {t b s : Nat} {T T' : Task} {Bn : Body} {l : List Ref}
     (inv : Inv σ) (u : Upd σ σ' t b s T' Bn l) (hT : σ.tasks t = some T)
     (hid : T'.id = t) (hf : T'.flags = T.flags) (hn : T'.nbodies ≠ 0)
-    (hb : b ≠ 0) (hst : Bn.state ≠ .created) (hbf : Bn.flags = bodyFlagsOf T.flags)
+    (hb : b ≠ 0) (hbid : Bn.id = b) (hst : Bn.state ≠ .created) (hbf : Bn.flags = bodyFlagsOf T.flags)
     (hss : Bn.stack ≠ none ↔ (Bn.state = .running ∨ Bn.state = .paused))
     (hl : l.Nodup)
     (hmem : ∀ r, r ∈ l ↔ (r = (t, b) ∧ Bn.stack = some s) ∨ (r ≠ (t, b) ∧ r ∈ σ.stacks s))
@@ -91,13 +92,19 @@ theorem inv_upd {σ σ' : Sys} {t b s : Nat} {T T' : Task} {Bn : Body} {l : List
       split
       · subst_vars; rw [hT] at h3; cases h3; exact ⟨T', rfl, by rw [hf]; exact h4⟩
       · exact ⟨Ti, h3, h4⟩
+  · intro i j B h
+    rw [u.bodies] at h
+    split at h
+    · rename_i hij
+      cases h; exact hbid.trans hij.2.symm
+    · exact inv.bodyId i j B h
   · intro i Ti h
     rw [u.tasks] at h
     split at h
     · cases h; subst_vars
       constructor
       · intro h0; exact absurd h0 hn
-      · intro hall; have := hall b; rw [u.bodies] at this; simp at this
+      · intro hall; have := hall Bn.id; rw [u.bodies] at this; simp at this
     · rename_i hne
       have := inv.nbodies i Ti h
       rw [this]
@@ -335,6 +342,7 @@ theorem exec_sound {σ σ' : Sys} {s t b : Nat} (inv : Inv σ)
       · apply inv_upd inv u hT hid rfl
         · intro h0; have := (inv.nbodies T.id T hT).1 h0 b; rw [hB] at this; cases this
         · exact hb0
+        · exact inv.bodyId T.id b B hB
         · simp
         · exact hBf
         · simp
@@ -390,6 +398,7 @@ theorem exec_sound {σ σ' : Sys} {s t b : Nat} (inv : Inv σ)
           · apply inv_upd inv u hT hid rfl
             · simp
             · exact hb0
+            · rfl
             · simp
             · rfl
             · simp
@@ -488,6 +497,7 @@ theorem inv_restate {σ : Sys} {s t b : Nat} {T : Task} {B : Body} {st : BodySta
   apply inv_upd inv (upd_same (s := s) hT) hT (inv.taskId t T hT) rfl
   · intro h0; have := (inv.nbodies t T hT).1 h0 b; rw [hB] at this; cases this
   · exact hb0
+  · exact inv.bodyId t b B hB
   · rcases hst with rfl | rfl <;> simp
   · exact hBf
   · simp [hs, hst]
@@ -649,6 +659,7 @@ theorem end_sound {σ σ' : Sys} {s t b : Nat} (inv : Inv σ)
           · apply inv_upd inv u hT rfl rfl
             · intro h0; have := (inv.nbodies T.id T hT).1 h0 b; rw [hB] at this; cases this
             · exact hb0
+            · exact inv.bodyId T.id b B hB
             · simp
             · exact hBf
             · simp
@@ -694,7 +705,7 @@ theorem typeCreate_sound {σ σ' : Sys} {ty gid : Nat} (inv : Inv σ)
     · rw [if_neg h1, if_pos h2] at h; cases h
     · simp only [h1, h2, if_false, Bool.not_true, Bool.false_eq_true, Except.ok.injEq] at h
       subst h
-      refine ⟨⟨inv.taskId, inv.body, inv.nbodies, inv.onStack, inv.stackState, inv.nodup⟩, ?_⟩
+      refine ⟨⟨inv.taskId, inv.body, inv.bodyId, inv.nbodies, inv.onStack, inv.stackState, inv.nodup⟩, ?_⟩
       have : abs (σ.setType ty gid) = (abs σ).addType ty := by
         apply Abs.ext' <;> intros <;> simp only [abs, Sys.setType, Abs.addType]
         split <;> simp
@@ -729,7 +740,7 @@ theorem create_sound {σ σ' : Sys} {ty t : Nat} {f : TaskFlags} (inv : Inv σ)
         | some B =>
           obtain ⟨_, _, T, hT, _⟩ := inv.body t b B hB
           rw [hnone] at hT; cases hT
-      refine ⟨⟨?_, ?_, ?_, inv.onStack, inv.stackState, inv.nodup⟩, ?_⟩
+      refine ⟨⟨?_, ?_, inv.bodyId, ?_, inv.onStack, inv.stackState, inv.nodup⟩, ?_⟩
       · intro i Ti h
         simp only [Sys.setTask] at h
         split at h
